@@ -23,6 +23,9 @@ structure Obs where
   survived           : Bool   -- the process was still alive at the end of the case
   closeCalled        : Bool
   closeReturned      : Bool
+  closePanicked      : Bool   -- Close raised a panic instead of returning
+  firstCloseBad      : Bool   -- factory reuse: closing the FIRST instance (after it had run for seconds) returned an error or panicked
+  progress           : Nat    -- check-pipeline calls of the instance under test that completed before its Close
   closedAtNs         : Nat    -- virtual time between the plugin's creation and the Close call.  0 = the very instant of creation:
                               -- virtual time only advances when every goroutine is durably blocked, so any value > 0 means the
                               -- services' start-up had quiesced (every recoverer `settled`) before Close was called
@@ -54,6 +57,14 @@ def resumeBound (cs : Case) : Nat := cs.coolDownNs + cs.intervalNs + cs.latencyN
 
 def panicClauseApplies (cs : Case) (o : Obs) : Bool := cs.scenario == "panic" && decide (o.panicsInjected > 0)
 
+/-- an open instance must get work through: in a plain Close case (no fault, no held call) with payloads offered on
+    every tick, an instance that stayed open for 2.5 s plus one pipeline latency has completed a pipeline call — also
+    when it is the second instance of a reused factory -/
+def progressDue (cs : Case) (o : Obs) : Bool :=
+  cs.scenario == "close" && decide (cs.work > 0) && decide (o.closedAtNs ≥ 2500000000 + cs.latencyNs)
+
+def progressOk (cs : Case) (o : Obs) : Bool := !progressDue cs o || decide (o.progress > 0)
+
 /-- the panic clause of `spec` -/
 def panicOk (cs : Case) (o : Obs) : Bool :=
   !panicClauseApplies cs o ||
@@ -63,7 +74,9 @@ def panicOk (cs : Case) (o : Obs) : Bool :=
 def spec (cs : Case) (o : Obs) : Bool :=
   o.survived &&
   (!o.closeCalled || o.closeReturned) &&
+  !o.closePanicked && !o.firstCloseBad &&
   !o.leak &&
+  progressOk cs o &&
   panicOk cs o
 
 /-- the leak is exactly what schedule (a) leaves behind, and nothing else is wrong with the case:
@@ -87,7 +100,7 @@ def isCloseBeforeServiceStart (cs : Case) (o : Obs) : Bool :=
 
 /-- which conjunct fails (first match) -/
 inductive Verdict
-  | ok | panicEscaped | closeDidNotReturn
+  | ok | panicEscaped | closeDidNotReturn | closePanicked | firstInstanceCloseFailed | noProgress
   | closeBeforeRunning        -- KNOWN FINDING (a)
   | closeBeforeServiceStart   -- KNOWN FINDING (b)
   | closeRefusedLate          -- a Close issued after start-up had quiesced was refused by a recoverer / service
@@ -97,7 +110,9 @@ deriving DecidableEq, Repr
 
 def classify (cs : Case) (o : Obs) : Verdict :=
   if !o.survived then .panicEscaped
+  else if o.closePanicked then .closePanicked
   else if o.closeCalled && !o.closeReturned then .closeDidNotReturn
+  else if o.firstCloseBad then .firstInstanceCloseFailed
   else if o.leak then
     if isCloseBeforeRunning cs o then .closeBeforeRunning
     else if isCloseBeforeServiceStart cs o then .closeBeforeServiceStart
@@ -106,6 +121,7 @@ def classify (cs : Case) (o : Obs) : Verdict :=
     else if decide (o.leakedServiceStart > o.errNotRunning) && decide (o.leakedService = o.errNotRunning + o.errNotStarted) &&
             decide (o.errOther = 0) && decide (o.leakedInflight = 0) then .closeSignalDropped
     else .leakUnexplained
+  else if !progressOk cs o then .noProgress
   else if panicClauseApplies cs o && !o.resumed then .panicNotResumed
   else if panicClauseApplies cs o && !decide (o.resumedWithinNs ≤ resumeBound cs) then .panicResumedLate
   else if panicClauseApplies cs o && !o.othersTicked then .panicStalledOthers
@@ -121,6 +137,9 @@ def render (cs : Case) (o : Obs) : Verdict → String
   | .ok => "ok"
   | .panicEscaped => s!"panic-escaped: a panic injected in {cs.panicSite} terminated the process"
   | .closeDidNotReturn => "close-did-not-return: Close had not returned when the case ended"
+  | .closePanicked => "close-panicked: Close raised a panic instead of returning"
+  | .firstInstanceCloseFailed => "first-instance-close-failed: closing the factory's first instance after it had run returned an error or panicked"
+  | .noProgress => s!"no-progress: the instance stayed open for {o.closedAtNs} ns with payloads on every tick and completed no check-pipeline call"
   | .closeBeforeRunning => s!"close-before-running: Close returned not-running for {o.errNotRunning} services and they kept running"
   | .closeBeforeServiceStart => s!"close-before-service-start: Close was refused by {o.errNotStarted} services that had not completed their start (not-running for {o.errNotRunning} more); they started afterwards and can no longer be closed"
   | .closeRefusedLate => s!"close-refused-after-start-up: Close, issued {o.closedAtNs} ns after creation (start-up had quiesced), was refused with not-running by {o.errNotRunning} and with not-started by {o.errNotStarted} services; {o.leakedServiceStart} serviceStart and {o.leakedService} service goroutines remain"
@@ -137,6 +156,7 @@ def explain (cs : Case) (o : Obs) : String := render cs o (classify cs o)
 /-- tag of a failing verdict (the known findings are matched on fail string AND tag) -/
 def Verdict.tag : Verdict → String
   | .ok => "" | .panicEscaped => "panic-escaped" | .closeDidNotReturn => "close-did-not-return"
+  | .closePanicked => "close-panicked" | .firstInstanceCloseFailed => "first-instance-close-failed" | .noProgress => "no-progress"
   | .closeBeforeRunning => "close-before-running" | .closeBeforeServiceStart => "close-before-service-start"
   | .closeRefusedLate => "close-refused-after-start-up"
   | .leakAndPanic => "leak-and-panic" | .closeSignalDropped => "close-signal-dropped" | .leakUnexplained => "leak-unexplained"
@@ -190,7 +210,8 @@ def predict (fx : Fixes) (cs : Case) (closedAtNs nNotRunning0 nNotStarted0 : Nat
   let ss := nNotRunning * la.serviceStart + nNotStarted * lb.serviceStart + nOk * lo.serviceStart
   let sv := nNotRunning * la.service + nNotStarted * lb.service + nOk * lo.service
   { survived := survived, closeCalled := closeCalled && survived, closeReturned := closeCalled && survived,
-    closedAtNs := closedAtNs,
+    closedAtNs := closedAtNs, closePanicked := false, firstCloseBad := false,
+    progress := if survived then 1 else 0,   -- instances share nothing (each has its own runner): a second one works like a first
     errNotRunning := nNotRunning, errNotStarted := nNotStarted, errOther := 0,
     leakedServiceStart := if closeCalled then ss else 0, leakedService := if closeCalled then sv else 0, leakedAux := 0, leakedInflight := 0,
     ticking := closeCalled && decide (sv > 0),
